@@ -898,7 +898,8 @@ SlotStarts(S, n, k) ==
                       IN {ResetClassChange(U2, n, i)})
              one == IF nd.nintr > 0
                     THEN LET i == nd.intr[1]
-                         IN start([S EXCEPT !.nodes[n].intr = Tail(@), !.nodes[n].nintr = @ - 1], i)
+                             S1 == [S EXCEPT !.nodes[n].intr = Tail(@), !.nodes[n].nintr = @ - 1]
+                         IN start(SetCu(S1, i, [Cu(S1, i) EXCEPT !.intr = FALSE]), i)
                     ELSE UNION {IF pr[1] = 0 THEN {pr[2]} ELSE start(pr[2], pr[1]) : pr \in ChooseNext(S, n)}
          IN Bind(one, LAMBDA T : SlotStarts(T, n, k - 1))
 
